@@ -280,6 +280,10 @@ func runCheck(prop string, o *checkOpts) int {
 			if v, ok := doc["maxpaths."+o.tier]; ok {
 				ex.MaxPaths, _ = strconv.Atoi(v)
 			}
+			ex.CrossBudget = 8
+			if o.tier == "thorough" {
+				ex.CrossBudget = 40
+			}
 			if v, ok := doc["qtimeout."+o.tier]; ok {
 				ex.QueryTimeoutMs, _ = strconv.Atoi(v)
 			}
@@ -421,6 +425,12 @@ func printHarnessSummary(r *exec.HarnessResult) {
 	}
 	for _, u := range r.Undischarged {
 		fmt.Printf("    undischarged: %s\n", firstLine(u, 300))
+	}
+	if r.CrossChecked > 0 {
+		fmt.Printf("    cross-solver: %d unsat answers re-asked to cvc5 and z3 5.1: %d confirmed, %d undecided by both, %d contradicted\n", r.CrossChecked, r.CrossAgreed, r.CrossUnknown, len(r.CrossDisagree))
+	}
+	for _, d := range r.CrossDisagree {
+		fmt.Printf("SOLVER-DISAGREEMENT %s\n", d)
 	}
 	if r.Truncated {
 		fmt.Printf("    truncated: path/time budget reached before the frontier was empty\n")
